@@ -15,6 +15,31 @@ pub fn run(ctx: &Ctx) -> i32 {
         bases.push(("d1g".into(), gen::d1(&Fmt::Gray)));
         bases.push(("d1i".into(), gen::d1(&Fmt::Indexed(4))));
     }
+    // degenerate entities: layers without cels, a group, tilemap cels without tiles, a one-frame tag
+    {
+        let fmt = Fmt::Rgba;
+        let mut f = gen::file(2, 2, &fmt, &[10, 20]);
+        f.frames[0].push(Body::Tileset(tileset(0, 1, 1, 1, vec![0; 4], "t")));
+        f.frames[0].push(Body::Layer(Layer::image("no-cels")));
+        f.frames[0].push(Body::Layer(Layer::group("g")));
+        let mut child = Layer::image("child-no-cels");
+        child.level = 1;
+        f.frames[0].push(Body::Layer(child));
+        f.frames[0].push(Body::Layer(Layer::tilemap("m0", 0)));
+        f.frames[0].push(Body::Layer(Layer::tilemap("m1", 0)));
+        f.frames[0].push(tags(vec![Tag::new("one", 1, 1, 0)]));
+        f.frames[0].push(tm_cel(3, 0, 0, 255, 0, 0, vec![]));
+        f.frames[0].push(tm_cel(4, 0, 0, 255, 0, 2, vec![]));
+        f.frames[1].push(tm_cel(3, 0, 0, 255, 3, 0, vec![]));
+        f.frames[1].push(raw_cel(0, 0, 0, 255, 1, 1, vec![0, 0, 0, 0]));
+        bases.push(("degenerate".into(), f));
+    }
+    for (bn, b) in &bases {
+        if !matches!(crate::common::load(&b.encode()), crate::common::Loaded::Ok(_)) {
+            eprintln!("machinery error: C15 base {} does not load", bn);
+            return 2;
+        }
+    }
     let all16: Vec<u16> = (0..=65535).collect();
 
     // pixel aspect ratio: every pair with pw != ph, both non-zero
